@@ -55,6 +55,12 @@ Theorem C08_src_offsets : forall m o,
 Proof. exact src_bc_offsets_eq. Qed.
 Print Assumptions C08_src_offsets.
 
+(* the capacity test of both constructors: refused unless is_power_of_two says yes *)
+Theorem C08_src_check_capacity : forall m cap b, GenSrcBits.src_is_power_of_two m cap = Ok b ->
+  src_bc_check_capacity m cap = Ok (if b then ROk 0 else MachineIntT.RErr "BroadcastTransmitError::NotPowerOfTwo" [cap]).
+Proof. exact src_bc_check_capacity_eq. Qed.
+Print Assumptions C08_src_check_capacity.
+
 Theorem C08_src_max_message_length : forall m cap, 0 <= cap ->
   src_bc_calculate_max_message_length m cap = Ok (max_msg cap).
 Proof. exact src_bc_calculate_max_message_length_eq. Qed.
